@@ -2,6 +2,7 @@ package main
 
 import (
 	"fmt"
+	"strings"
 
 	simdjson "github.com/minio/simdjson-go"
 
@@ -66,6 +67,36 @@ func c14Body(w *W) {
 	hp := c14Params(w)
 	w.Note(fmt.Sprintf("BFS over deletion/replacement histories to depth %d on %d seeds x {copy,no-copy}: every container x every member subset x call forms {predicate, filter, both, both nil} x 3 routes; SetNull on containers; interleaved Set* replacements", hp.maxDepth, len(hp.seeds)))
 	exploreHistories(w, hp)
+	// one large deletion: a gap longer than the serializer's 64 Ki tag block
+	w.res.States++
+	if w.Mine() {
+		var sb strings.Builder
+		sb.WriteString("[[")
+		for i := 0; i < 40000; i++ {
+			fmt.Fprintf(&sb, "%d,", i)
+		}
+		sb.WriteString(`0],"after the gap",{"k":[1,2]},3]`)
+		c := Cfg{hasAVX512, true}
+		pj, docs := mustParse(w, sb.String(), false, c)
+		for _, o := range []editOp{{kind: opArrDelete, p: vpath{0}, route: 0, subset: 0b1}, {kind: opObjDelete, p: vpath{0, 1}, route: 1, form: 3}} {
+			nd, _ := applyModel(docs, o)
+			aerr, prot := applyReal(pj, docs, o)
+			w.res.Transitions++
+			w.res.Evaluations++
+			w.res.Validated++
+			what, api := "", ""
+			if aerr != nil || prot != "" {
+				what, api = fmt.Sprint(aerr, prot), "apply"
+			} else {
+				docs = nd
+				what, api = stateAgreement(pj, docs, simdjson.CompressDefault)
+			}
+			if what != "" {
+				w.Violate(Violation{Harness: "C14-large-gap", Fingerprint: "C14/large-gap/" + api, What: fmt.Sprintf("after deleting a 40001-element array (80003 tape entries) from a large document: %s: %s", api, what), Case: []byte("large-gap"), CaseText: "[[0..40000],\"after the gap\",{\"k\":[1,2]},3] " + o.String(), Config: c.String()})
+				break
+			}
+		}
+	}
 	w.Sample(histText(editSeeds[1], Cfg{hasAVX512, true}, []editOp{{kind: opArrDelete, p: vpath{0}, route: 0, subset: 0b000110}, {kind: opObjDelete, p: vpath{0, 1}, route: 1, form: 3}}))
 }
 
